@@ -228,7 +228,8 @@ class Gen:
         out = []
         for _ in range(rng.choice((0, 1, 2, 3))):
             name = "".join(rng.choice("AbcZ09_") for _ in range(rng.randrange(1, 8)))
-            value = "".join(rng.choice("abc 019.<>,\t-é") for _ in range(rng.randrange(0, 10)))
+            # incl. the characters str.splitlines()/bytes.splitlines() treat as line ends although only LF separates entries
+            value = "".join(rng.choice("abc 019.<>,\t-é\r\x0b\x0c\x1c\x85\u2028") for _ in range(rng.randrange(0, 10)))
             out.append(nv.NameValue(name=name, type=rng.choice(list(nv.NameValueType)),
                                     rw=rng.choice(list(nv.NameValueClass)),
                                     sendto=rng.choice(list(nv.NameValueSendTo)), value=value))
